@@ -36,6 +36,14 @@ Definition Ok (u : url) : perr + url := inr u.
 Definition Er (e : perr) : perr + url := inl e.
 Definition E0 : str := [].
 
+(* the common case "a local synchronization path [raw] that normalizes to [n]":
+   exactly the UP term the Go harness would print for it *)
+Definition UL (raw n : str) : ucase :=
+  UP raw KSync []
+     (if str_eqb raw n then [(n, Some n)] else [(raw, Some n); (n, Some n)])
+     (Ok (U KSync PLocal E0 E0 0%N n [] [])) true
+     (if str_eqb raw n then SameRaw else Fm n) Same2.
+
 Definition nz_fun (nz : list (str * option str)) (s : str) : option str :=
   match find (fun p => str_eqb (fst p) s) nz with
   | Some (_, o) => o
